@@ -10,6 +10,10 @@
 //   J <frame> <JSON() bytes | PANIC> <json.Valid 0|1|-> <MarshalJSON()==JSON() 0|1|->
 //   M <frame> <json.Marshal([]Frame{f}) bytes | PANIC | ERR>
 //   C <container kind> <frame> <json.Marshal(container) bytes | PANIC | ERR> <ok|err|panic|-> <frames decoded back, comma separated | ->
+//   A <f1> <f2> <f3> <b1 re-read after marshalling f2,f3> <copy of b1 taken at once> <b2> <b3> <json.Marshal(f1)> <json.Marshal(f2)>
+//   AC <frame> <calls> <distinct results of MarshalJSON()/json.Marshal seen by a goroutine, comma separated>
+//   RS <text1> <text2> <res1> <dst after 1> <res2> <same dst after 2> <res2 into a fresh dst> <fresh dst>   (UnmarshalString)
+//   RJ <doc1> <doc2>  ... same fields ...                                                                  (UnmarshalJSON)
 //   D <doc> <sentinel frame> <ok|err|panic> <destination afterwards> <json.Valid(doc) 0|1>
 //   E <arr|struct> <doc> <ok|err|panic> <frame | ->
 //   O-<routine> ...           direct observations of the library oracles
@@ -20,6 +24,9 @@ package main
 
 import (
 	"bufio"
+	"runtime"
+	"sort"
+	"sync"
 	"encoding/hex"
 	"encoding/json"
 	"fmt"
@@ -400,6 +407,7 @@ func c15(nrand, nextRandom, nstrings int) {
 			emitU(randomBytes(), true)
 		}
 	}
+	reuseStream("RS", nstrings/4, func() []byte { return []byte(mutate(patternString())) })
 	oracleLines(nstrings / 20)
 }
 
@@ -571,6 +579,160 @@ func emitC(f can.Frame) {
 			return hx(doc) + " " + dec
 		}()
 		fmt.Fprintf(out, "C %s %s %s\n", kind, fr(f), line)
+	}
+}
+
+// ---- state kept between calls: results that alias a shared buffer, destinations that keep old fields
+
+// a valid frame with zero unused bytes, of a random kind and length (texts of different lengths)
+func randomValidFrame() can.Frame {
+	var f can.Frame
+	f.IsExtended = rng.Intn(2) == 0
+	if f.IsExtended {
+		f.ID = rng.Uint32() & can.MaxExtendedID >> uint(rng.Intn(29))
+	} else {
+		f.ID = rng.Uint32() & can.MaxID >> uint(rng.Intn(11))
+	}
+	f.Length = uint8(rng.Intn(9))
+	if rng.Intn(3) == 0 {
+		f.IsRemote = true
+	} else {
+		f.Data = maskData(randData(), int(f.Length))
+	}
+	return f
+}
+
+func marshalBytes(f can.Frame) (b []byte) {
+	defer func() {
+		if r := recover(); r != nil {
+			b = []byte("PANIC")
+		}
+	}()
+	b, err := f.MarshalJSON()
+	if err != nil {
+		return []byte("ERR")
+	}
+	return b
+}
+
+func jsonMarshalBytes(f can.Frame) (b []byte) {
+	defer func() {
+		if r := recover(); r != nil {
+			b = []byte("PANIC")
+		}
+	}()
+	b, err := json.Marshal(f)
+	if err != nil {
+		return []byte("ERR")
+	}
+	return b
+}
+
+func emitA(f1, f2, f3 can.Frame) {
+	b1 := marshalBytes(f1)
+	copy1 := append([]byte(nil), b1...)
+	b2 := marshalBytes(f2)
+	b3 := marshalBytes(f3)
+	j1 := jsonMarshalBytes(f1)
+	j2 := jsonMarshalBytes(f2)
+	fmt.Fprintf(out, "A %s %s %s %s %s %s %s %s %s\n", fr(f1), fr(f2), fr(f3), hx(b1), hx(copy1), hx(b2), hx(b3), hx(j1), hx(j2))
+}
+
+func emitAC(rounds int) {
+	const workers = 4
+	frames := make([]can.Frame, workers)
+	for i := range frames {
+		frames[i] = randomValidFrame()
+		frames[i].ID = frames[i].ID&^3 | uint32(i) // distinct frames
+		frames[i].Length = uint8(2 * i)
+		if !frames[i].IsRemote {
+			frames[i].Data = maskData(randData(), 2*i)
+		}
+	}
+	seen := make([]map[string]bool, workers)
+	var wg sync.WaitGroup
+	for i := 0; i < workers; i++ {
+		seen[i] = map[string]bool{}
+		wg.Add(1)
+		go func(i int) {
+			defer wg.Done()
+			for k := 0; k < rounds; k++ {
+				b := marshalBytes(frames[i])
+				runtime.Gosched()
+				seen[i][string(b)] = true
+				seen[i][string(jsonMarshalBytes(frames[i]))] = true
+			}
+		}(i)
+	}
+	wg.Wait()
+	for i := 0; i < workers; i++ {
+		var rs []string
+		for r := range seen[i] {
+			rs = append(rs, hx([]byte(r)))
+		}
+		sort.Strings(rs)
+		if len(rs) > 8 {
+			rs = rs[:8]
+		}
+		fmt.Fprintf(out, "AC %s %d %s\n", fr(frames[i]), 2*rounds, strings.Join(rs, ","))
+	}
+}
+
+// decode in1 then in2 into the SAME destination, and in2 into a fresh one
+func emitR(tag string, in1, in2 []byte) {
+	dec := func(in []byte, dst *can.Frame) string {
+		if tag == "RS" {
+			return doUnmarshalString(string(in), dst)
+		}
+		return doUnmarshalJSON(in, dst)
+	}
+	var dst, fresh can.Frame
+	r1 := dec(in1, &dst)
+	a1 := dst
+	r2 := dec(in2, &dst)
+	rf := dec(in2, &fresh)
+	fmt.Fprintf(out, "%s %s %s %s %s %s %s %s %s\n", tag, hx(in1), hx(in2), r1, fr(a1), r2, fr(dst), rf, fr(fresh))
+}
+
+// the text of a frame, composed here from the documented formats (not with the code under test)
+func textOf(f can.Frame, json bool) []byte {
+	if json {
+		s := fmt.Sprintf(`{"id":%d`, f.ID)
+		if !f.IsRemote && f.Length > 0 {
+			s += `,"data":"` + hex.EncodeToString(f.Data[:f.Length]) + `"`
+		}
+		if f.IsExtended {
+			s += `,"extended":true`
+		}
+		if f.IsRemote {
+			s += fmt.Sprintf(`,"remote":true,"length":%d`, f.Length)
+		}
+		return []byte(s + "}")
+	}
+	id := fmt.Sprintf("%03X", f.ID)
+	if f.IsExtended {
+		id = fmt.Sprintf("%08X", f.ID)
+	}
+	if f.IsRemote {
+		return []byte(fmt.Sprintf("%s#R%d", id, f.Length))
+	}
+	return []byte(id + "#" + strings.ToUpper(hex.EncodeToString(f.Data[:f.Length])))
+}
+
+func reuseStream(tag string, n int, malformed func() []byte) {
+	for i := 0; i < n; i++ {
+		f1, f2 := randomValidFrame(), randomValidFrame()
+		if i%2 == 0 { // long data frame first, then something shorter
+			f1.IsRemote, f1.Length, f1.Data = false, 8, randData()
+			f2.Length = uint8(rng.Intn(4))
+			f2.Data = maskData(f2.Data, int(f2.Length))
+		}
+		t1, t2 := textOf(f1, tag == "RJ"), textOf(f2, tag == "RJ")
+		emitR(tag, t1, t2)
+		if i%5 == 0 {
+			emitR(tag, t1, malformed())
+			emitR(tag, malformed(), t2)
+		}
 	}
 }
 
@@ -902,6 +1064,13 @@ func c16(nrand, nextRandom, ndocs int) {
 			emitD(b, i%16 == 0)
 		}
 	}
+	for i := 0; i < ndocs/2; i++ {
+		emitA(randomValidFrame(), randomValidFrame(), randomValidFrame())
+	}
+	for i := 0; i < 1+ndocs/2000; i++ {
+		emitAC(200)
+	}
+	reuseStream("RJ", ndocs/2, func() []byte { return mutateDoc(randomDoc()) })
 	oracleLines(ndocs / 40)
 }
 
@@ -941,6 +1110,16 @@ func one(args []string) {
 		emitJ(parseFrame(args[1]))
 	case "M":
 		emitM(parseFrame(args[1]))
+	case "A":
+		if len(args) >= 4 {
+			emitA(parseFrame(args[1]), parseFrame(args[2]), parseFrame(args[3]))
+		}
+	case "AC":
+		emitAC(200)
+	case "RS", "RJ":
+		if len(args) >= 3 {
+			emitR(args[0], unhx(args[1]), unhx(args[2]))
+		}
 	case "C":
 		if len(args) >= 3 {
 			emitC(parseFrame(args[2]))
